@@ -51,6 +51,8 @@
 #include "Space/SpaceRN.hpp"
 
 #include <memory>
+#include <map>
+#include <set>
 #include <fstream>
 
 namespace vfc
@@ -97,6 +99,8 @@ inline bool same_double(double a, double b, double scale, double tol = 1e-14)
   return std::fabs(a - b) <= tol * m;
 }
 inline std::string group_of(const std::string& label) { size_t p = label.find(':'); return p == std::string::npos ? label : label.substr(0, p); }
+struct FpMismatch { std::string group, text; };
+inline std::vector<FpMismatch> fp_diff_all(const Fp& a, const Fp& b);
 // "" when equivalent; otherwise text of the first mismatch and *group = its group
 inline std::string fp_diff(const Fp& a, const Fp& b, std::string* group)
 {
@@ -123,6 +127,37 @@ inline std::string fp_diff(const Fp& a, const Fp& b, std::string* group)
     return "fingerprints have " + std::to_string(a.e.size()) + " vs " + std::to_string(b.e.size()) + " entries; first extra: " + x.k;
   }
   return "";
+}
+
+// first mismatch of EVERY group (a known defect in one group must not hide a new one in another group).
+// Entries are matched by label (+ occurrence rank for repeated labels); an entry present on one side only is reported under
+// "<group>-layout" (different number of items), a differing value under "<group>".
+inline std::vector<FpMismatch> fp_diff_all(const Fp& a, const Fp& b)
+{
+  std::vector<FpMismatch> out;
+  auto seen = [&](const std::string& g) { for (auto& m : out) if (m.group == g) return true; return false; };
+  auto keyed = [](const Fp& f) {
+    std::vector<std::string> k; std::map<std::string, int> occ;
+    for (auto& x : f.e) { int n = occ[x.k]++; k.push_back(n ? x.k + "{" + std::to_string(n) + "}" : x.k); }
+    return k; };
+  std::vector<std::string> ka = keyed(a), kb = keyed(b);
+  std::map<std::string, const Fp::E*> mb;
+  for (size_t i = 0; i < b.e.size(); i++) mb[kb[i]] = &b.e[i];
+  std::set<std::string> sa(ka.begin(), ka.end());
+  for (size_t i = 0; i < a.e.size(); i++)
+  {
+    const Fp::E& x = a.e[i];
+    std::string g = group_of(x.k);
+    auto it = mb.find(ka[i]);
+    if (it == mb.end()) { if (!seen(g + "-layout")) out.push_back({g + "-layout", "'" + ka[i] + "' exists in the original only"}); continue; }
+    if (seen(g)) continue;
+    const Fp::E& y = *it->second;
+    bool ok = x.kind == y.kind && (x.kind == 2 ? x.s == y.s : x.kind == 1 ? x.d == y.d : same_double(x.d, y.d, std::max(x.scale, y.scale), std::max(x.tol, y.tol)));
+    if (!ok) out.push_back({g, ka[i] + ": original=" + (x.kind == 2 ? x.s : fmt(x.d)) + " reloaded=" + (y.kind == 2 ? y.s : fmt(y.d))});
+  }
+  for (size_t i = 0; i < b.e.size(); i++)
+    if (!sa.count(kb[i])) { std::string g = group_of(b.e[i].k) + "-layout"; if (!seen(g)) out.push_back({g, "'" + kb[i] + "' exists after reload only"}); }
+  return out;
 }
 
 // ---------------------------------------------------------------------------------------------
@@ -192,6 +227,7 @@ inline bool read_file(const std::string& path, std::string& content)
   return true;
 }
 
+inline int& extreme_counter();   // slot counter of the value sets of formatting extremes (defined below)
 template<class T> struct Reg
 {
   ClassDef d;
@@ -204,7 +240,7 @@ template<class T> struct Reg
   }
   Reg& fresh(std::function<T*()> f) { d.fresh = [f]() -> ASerializable* { return f(); }; return *this; }
   Reg& space(std::function<Space(bool)> f) { d.space = f; return *this; }
-  Reg& build(std::function<T*(const std::vector<int>&)> f) { d.build = [f](const std::vector<int>& i) -> ASerializable* { T* t = f(i); return t; }; return *this; }
+  Reg& build(std::function<T*(const std::vector<int>&)> f) { d.build = [f](const std::vector<int>& i) -> ASerializable* { extreme_counter() = 0; T* t = f(i); return t; }; return *this; }
   Reg& fromNF(std::function<T*(const std::string&)> f) { d.fromNF = [f](const std::string& p) -> ASerializable* { return f(p); }; return *this; }
   Reg& getters(std::function<void(const T&, Fp&)> f) { d.getters = [f](const ASerializable* o, Fp& fp) { f(*dynamic_cast<const T*>(o), fp); }; return *this; }
   Reg& probe(std::function<void(T&, Fp&)> f) { d.probe = [f](ASerializable* o, Fp& fp) { f(*dynamic_cast<T*>(o), fp); }; return *this; }
@@ -221,8 +257,32 @@ inline const std::vector<double>& special_values()
   static const std::vector<double> v = {0., -0.0, 1., -1.5, 1. / 3., 1e-300, 1e300, 123456789.123456789, TEST, -2.5e-7, 1024.};
   return v;
 }
+// Formatting extremes (value sets 100, 101, ...): the longest texts "%.15g" can produce (sign + 15 digits + 3-digit exponent),
+// the largest / smallest normal and denormal magnitudes, values needing exactly 15 / 16 / 17 significant digits, 15-16 digit integers.
+// All the values written with 15 digits below are exactly the doubles nearest to these decimals: they must come back bit for bit.
+inline const std::vector<double>& extreme_values()
+{
+  static const std::vector<double> v = {
+    -1.23456789012345e-100, 1.23456789012345e+100, -1.23456789012345e+100, 1.23456789012345e-100,
+    -9.99999999999999e+307, 9.99999999999999e-307, -9.99999999999999e-307, 9.99999999999999e+307,
+    -1.23456789012345e-300, 4.94065645841247e-324, -4.94065645841247e-324, 1.79769313486231e308, -1.79769313486231e308,
+    0.1 + 0.2, 1. / 3., -2. / 3., 1e15 + 0.3, -0.0, 123456789012345., -1234567890123456., 999999999999999., 0.1, -1e-5, 1e21, -1e22,
+    2.2250738585072e-308, -2.2250738585072e-308, 1.5, -123456789.012345, 1e100, -1e-100, 5e-324, 1e16, 100000000000000., TEST};
+  return v;
+}
+inline const int EXTREME_STRIDE = 7;
+inline int n_extreme_sets() { return ((int)extreme_values().size() + EXTREME_STRIDE - 1) / EXTREME_STRIDE; }   // windows needed to see every value in an object with >= 7 slots
+inline int& extreme_counter() { static int c = 0; return c; }   // slot counter of the object being built (reset by Reg::build)
+// axis value -> value set: the first `nold` axis values keep their historical meaning (the C09 corpus texts depend on them),
+// the following ones select the windows of formatting extremes
+inline int vset_of(int axisvalue, int nold) { return axisvalue < nold ? axisvalue : 100 + (axisvalue - nold); }
 inline double pick_value(int vset, int i, int j)
 {
+  if (vset >= 100)
+  {
+    const auto& e = extreme_values();
+    return e[(size_t)((vset - 100) * EXTREME_STRIDE + extreme_counter()++) % e.size()];
+  }
   if (vset == 0) return (double)((i * 3 + j * 5) % 7) - 2.;           // small integers
   const auto& s = special_values();
   return s[(size_t)(i * 4 + j * 3 + vset) % s.size()];
@@ -301,10 +361,10 @@ inline void register_db()
   Reg<Db>("Db")
     .space([](bool th) {
       Space s;
-      s.axis("ndim", 3).axis("nvar", 3).axis("nech", 4).axis("vset", th ? 4 : 3).axis("lset", 3 + 29).axis("nset", th ? 3 : 2);
+      s.axis("ndim", 3).axis("nvar", 3).axis("nech", 4).axis("vset", 4 + n_extreme_sets()).axis("lset", 3 + 29).axis("nset", th ? 3 : 2);
       return s; })
     .build([](const std::vector<int>& x) -> Db* {
-      int ndim = x[0] + 1, nvar = x[1], nech = std::vector<int>{1, 3, 2, 0}[x[2]], vset = x[3], lset = x[4], nset = x[5];
+      int ndim = x[0] + 1, nvar = x[1], nech = std::vector<int>{1, 3, 2, 0}[x[2]], vset = vset_of(x[3], 4), lset = x[4], nset = x[5];
       if (x[2] == 3)
       {
         // the empty Db (0 columns, 0 samples: the "ncol > 0" branch of the reader not taken), once
@@ -348,16 +408,17 @@ inline void register_dbgrid()
   Reg<DbGrid>("DbGrid")
     .space([](bool th) {
       Space s;
-      s.axis("ndim", 3).axis("nxset", th ? 3 : 2).axis("geom", th ? 4 : 3).axis("rot", 3).axis("nvar", 2).axis("vset", th ? 4 : 3).axis("flags", 3);
+      s.axis("ndim", 3).axis("nxset", th ? 3 : 2).axis("geom", 5).axis("rot", 3).axis("nvar", 2).axis("vset", 4 + n_extreme_sets()).axis("flags", 3);
       return s; })
     .build([](const std::vector<int>& x) -> DbGrid* {
-      int ndim = x[0] + 1, nxset = x[1], geom = x[2], rot = x[3], nvar = x[4], vset = x[5], flags = x[6];
+      int ndim = x[0] + 1, nxset = x[1], geom = x[2], rot = x[3], nvar = x[4], vset = vset_of(x[5], 4), flags = x[6];
       static const int NX[3][3] = {{2, 2, 2}, {3, 2, 1}, {1, 4, 3}};
-      static const double DX[4][3] = {{1, 1, 1}, {0.5, 2, 0.25}, {0.1, 0.3, 1e-3}, {1e6, 123456789.123456789, 1. / 3.}};
-      static const double X0[4][3] = {{0, 0, 0}, {-1.5, 10, 0.25}, {0.2, 0.4, -1e-7}, {1e9, -1. / 3., 1e-300}};
+      static const double DX[5][3] = {{1, 1, 1}, {0.5, 2, 0.25}, {0.1, 0.3, 1e-3}, {1e6, 123456789.123456789, 1. / 3.}, {1.23456789012345e+100, 9.99999999999999e-101, 1.23456789012345e-100}};
+      static const double X0[5][3] = {{0, 0, 0}, {-1.5, 10, 0.25}, {0.2, 0.4, -1e-7}, {1e9, -1. / 3., 1e-300}, {-1.23456789012345e-100, -1.23456789012345e+100, -9.99999999999999e-307}};
       VectorInt nx(ndim); VectorDouble dx(ndim), x0(ndim), ang(ndim, 0.);
       for (int d = 0; d < ndim; d++) { nx[d] = NX[nxset][d]; dx[d] = DX[geom][d]; x0[d] = X0[geom][d]; }
       if (rot > 0 && ndim == 1) return nullptr;           // no rotation in 1-D
+      if (geom == 4 && rot > 0) return nullptr;           // extreme mesh sizes: unrotated (rotated coordinates mix 1e100 and 1e-100)
       if (rot == 1) ang[0] = 30.;
       if (rot == 2) { ang[0] = -45.; if (ndim == 3) { ang[1] = 20.; ang[2] = 10.; } else return nullptr; }
       int ntot = 1; for (int d = 0; d < ndim; d++) ntot *= nx[d];
@@ -471,7 +532,7 @@ inline void register_model()
   Reg<Model>("Model")
     .space([](bool th) {
       Space s;
-      s.axis("ndim", 3).axis("nvar", th ? 3 : 2).axis("cov1", th ? (int)cov_menu().size() : 6).axis("cov2", 6).axis("aniso", 4).axis("drift", 6).axis("extra", th ? 3 : 2);
+      s.axis("ndim", 3).axis("nvar", th ? 3 : 2).axis("cov1", th ? (int)cov_menu().size() : 6).axis("cov2", 6).axis("aniso", 4).axis("drift", 6).axis("extra", 4);
       return s; })
     .build([](const std::vector<int>& x) -> Model* {
       int ndim = x[0] + 1, nvar = x[1] + 1, c1 = x[2], c2 = x[3], an = x[4], dr = x[5], ex = x[6];
@@ -503,6 +564,21 @@ inline void register_model()
       if (dr == 0) for (int i = 0; i < nvar; i++) m->setMean(i == 0 ? -1.5 : 1. / 3., i);
       if (ex >= 1) m->setField(ex == 1 ? 12.5 : 1e6);
       if (ex == 2) for (int i = 0; i < nvar; i++) for (int j = 0; j < nvar; j++) m->setCovar0(i, j, i == j ? 3. : 0.5);
+      if (ex == 3)
+      {
+        // formatting extremes in every stored double (isotropic structures only: anisotropy coefficients are derived quantities)
+        if (an != 0 || m->getCovaNumber() < 1) { delete m; return nullptr; }
+        m->setField(1.23456789012345e+100);
+        if (dr == 0) for (int i = 0; i < nvar; i++) m->setMean(i == 0 ? -1.23456789012345e-100 : -9.99999999999999e+307, i);
+        for (int i = 0; i < nvar; i++) for (int j = 0; j < nvar; j++) m->setCovar0(i, j, i == j ? 1.79769313486231e308 : -1.23456789012345e-300);
+        for (int ic = 0; ic < m->getCovaNumber(); ic++)
+        {
+          for (int i = 0; i < nvar; i++) for (int j = 0; j < nvar; j++) m->setSill(ic, i, j, i == j ? 1.23456789012345e+100 * (i + 1) : -1.23456789012345e-100);
+          CovAniso* c = m->getCova(ic);
+          if (c->hasRange()) c->setRangeIsotropic(ic == 0 ? 1.23456789012345e-100 : 9.99999999999999e+307);
+          if (c->hasParam()) c->setParam(c->getType() == ECov::MATERN ? 1.23456789012345 : c->getParam());
+        }
+      }
       return m; })
     .fromNF([](const std::string& p) { return Model::createFromNF(p, false); })
     .getters([](const Model& m, Fp& fp) { model_getters(m, fp); })
@@ -671,9 +747,9 @@ inline void register_neigh()
 inline void register_table()
 {
   Reg<Table>("Table")
-    .space([](bool th) { Space s; s.axis("nrows", 4).axis("ncols", 4).axis("vset", th ? 5 : 3).axis("names", 2); return s; })
+    .space([](bool th) { Space s; s.axis("nrows", 4).axis("ncols", 4).axis("vset", 5 + n_extreme_sets()).axis("names", 2); return s; })
     .build([](const std::vector<int>& x) -> Table* {
-      int nr = x[0], nc = x[1], vset = x[2];
+      int nr = x[0], nc = x[1], vset = vset_of(x[2], 5);
       Table* t = Table::create(nr, nc);
       for (int i = 0; i < nr; i++) for (int j = 0; j < nc; j++) t->setValue(i, j, pick_value(vset, i, j));
       if (x[3])
@@ -713,7 +789,9 @@ inline void ring(int shape, int vset, VectorDouble& x, VectorDouble& y)
     {{0, 0}, {1, 0}, {0, 1}},
     {{0, 0}, {2, 0}, {2, 2}, {0, 2}, {0, 0}},
     {{-1.5, 0.25}, {3, 0.5}, {1, 1}, {3, 2.75}, {-1, 2}},
-    {{1. / 3., 1e-300}, {1e300, 123456789.123456789}, {-0.0, 1e6}}};
+    {{1. / 3., 1e-300}, {1e300, 123456789.123456789}, {-0.0, 1e6}},
+    {{-1.23456789012345e-100, 1.23456789012345e+100}, {-9.99999999999999e+307, 4.94065645841247e-324}, {-1.79769313486231e308, 0.1 + 0.2}, {-1.23456789012345e-300, -1.23456789012345e+100}},
+    {{9.99999999999999e-307, -9.99999999999999e-307}, {1e15 + 0.3, -2. / 3.}, {-1234567890123456., 1.79769313486231e308}, {-4.94065645841247e-324, 123456789012345.}}};
   x.clear(); y.clear();
   for (auto& p : S[shape]) { x.push_back(p.first); y.push_back(p.second); }
   if (vset == 1) for (auto& v : x) v += 100.;
@@ -721,7 +799,7 @@ inline void ring(int shape, int vset, VectorDouble& x, VectorDouble& y)
 inline void register_polygons()
 {
   Reg<Polygons>("Polygons")
-    .space([](bool th) { Space s; s.axis("npol", 4).axis("shape1", 4).axis("shape2", th ? 4 : 2).axis("zlim", 4).axis("shift", 2); return s; })
+    .space([](bool th) { Space s; s.axis("npol", 4).axis("shape1", 6).axis("shape2", th ? 4 : 2).axis("zlim", 5).axis("shift", 2); return s; })
     .build([](const std::vector<int>& x) -> Polygons* {
       int npol = x[0];
       if (npol == 0 && (x[1] || x[2] || x[3] || x[4])) return nullptr;
@@ -730,11 +808,12 @@ inline void register_polygons()
       for (int k = 0; k < npol; k++)
       {
         VectorDouble px, py;
-        ring(k == 0 ? x[1] : k == 1 ? x[2] : (x[1] + x[2] + 1) % 4, x[4], px, py);
+        ring(k == 0 ? x[1] : k == 1 ? x[2] : (x[1] + x[2] + 1) % 4, x[1] >= 4 ? 0 : x[4], px, py);
         double zmin = TEST, zmax = TEST;
         if (x[3] == 1) { zmin = -1.5; zmax = 2.; }
         if (x[3] == 2) { zmin = 0.; }
         if (x[3] == 3 && k == 1) { zmin = 1. / 3.; zmax = 1e300; }
+        if (x[3] == 4) { zmin = -1.23456789012345e+100; zmax = -1.23456789012345e-100; }
         PolyElem e(px, py, zmin, zmax);
         P->addPolyElem(e);
       }
@@ -776,7 +855,7 @@ inline void register_batch1()
 // =============================================================================================
 // batch 2
 // ---------------------------------------------------------------------------------------------
-inline Db* vario_db(int ndim, int nvar, bool undefined)
+inline Db* vario_db(int ndim, int nvar, bool undefined, int mag = 0)
 {
   // 7 points with dyadic coordinates, values small dyadics
   static const double X[7][3] = {{0, 0, 0}, {1, 0, 0.5}, {2, 1, 0}, {0.5, 2, 1}, {3, 0.5, 1.5}, {1.5, 1.5, 2}, {2.5, 3, 0.25}};
@@ -784,8 +863,10 @@ inline Db* vario_db(int ndim, int nvar, bool undefined)
   std::vector<std::vector<double>> x(ndim), z(nvar);
   for (int i = 0; i < 7; i++)
   {
-    for (int d = 0; d < ndim; d++) x[d].push_back(X[i][d]);
-    for (int v = 0; v < nvar; v++) z[v].push_back(undefined && i == 3 && v == 0 ? TEST : Z[i][v]);
+    // magnitude 1: data x 1.23456789012345e-52 (variogram values ~1e-104, negative cross terms); 2: data x 1e+52 and coordinates x 1e+100
+    double kz = mag == 1 ? 1.23456789012345e-52 : mag == 2 ? 1.23456789012345e+52 : 1., kx = mag == 2 ? 1e+100 : 1.;
+    for (int d = 0; d < ndim; d++) x[d].push_back(X[i][d] * kx);
+    for (int v = 0; v < nvar; v++) z[v].push_back(undefined && i == 3 && v == 0 ? TEST : Z[i][v] * kz);
   }
   return make_db_xz(x, z);
 }
@@ -823,9 +904,11 @@ inline void vario_getters(const Vario& v, Fp& fp)
     for (int i = 0; i < v.getDirSize(id); i++)
     {
       std::string q = p + "[" + std::to_string(i) + "]";
-      fp.D("results:sw" + q, v.getSwByIndex(id, i));
-      fp.D("results:hh" + q, v.getHhByIndex(id, i));
-      fp.D("results:gg" + q, v.getGgByIndex(id, i));
+      // lags without pairs (undefined, reloaded as 0: known defect) are kept apart from the defined values, which must round-trip
+      auto put = [&](const char* what, double val) { fp.D(std::string(FFFF(val) || val == 0. ? "results:" : "values:") + what + q, val); };
+      put("sw", v.getSwByIndex(id, i));
+      put("hh", v.getHhByIndex(id, i));
+      put("gg", v.getGgByIndex(id, i));
     }
   }
 }
@@ -835,10 +918,12 @@ inline void register_vario()
     .fresh([]() { VarioParam vp; return new Vario(vp); })
     .space([](bool th) {
       Space s;
-      s.axis("ndim", 3).axis("nvar", 2).axis("ndir", 3).axis("calc", th ? 4 : 3).axis("dirkind", 3).axis("option", 6).axis("undef", 2);
+      s.axis("ndim", 3).axis("nvar", 2).axis("ndir", 3).axis("calc", th ? 4 : 3).axis("dirkind", 3).axis("option", 6).axis("undef", 2).axis("magnitude", 3);
       return s; })
     .build([](const std::vector<int>& x) -> Vario* {
       int ndim = x[0] + 1, nvar = x[1] + 1, ndir = x[2] + 1, calc = x[3], kind = x[4], opt = x[5], und = x[6];
+      int mag = x.size() > 7 ? x[7] : 0;   // (the C09 corpus entries have 7 indices)
+      if (mag && (kind == 2 || opt != 0)) return nullptr;
       if (kind == 2 && (ndim == 1 || opt != 0 || calc >= 2)) return nullptr;      // grid directions: 2-D/3-D grids, no extra option (covariogram/madogram on a grid crash in compute())
       if (ndir >= 2 && ndim == 1) return nullptr;
       if (ndir == 3 && (ndim != 3 || kind != 1)) return nullptr;   // three directions: along the axes of a 3-D space
@@ -863,7 +948,7 @@ inline void register_vario()
       }
       else
       {
-        db.reset(vario_db(ndim, nvar, und != 0));
+        db.reset(vario_db(ndim, nvar, und != 0, mag));
         if (opt == 5) { VectorDouble codes = {1, 1, 2, 1, 2, 2, 1}; db->addColumns(codes, "code", ELoc::C, 0); }   // selection by code (option 1, tolerance 0.5)
         for (int id = 0; id < ndir; id++)
         {
@@ -873,7 +958,7 @@ inline void register_vario()
           double bench = opt == 1 && ndim >= 2 ? 0.75 : TEST, cyl = opt == 2 && ndim >= 2 ? 1.25 : TEST;
           VectorDouble breaks;
           if (opt == 3) breaks = {0., 0.75, 2., 4.5};
-          DirParam dp(id == 0 ? 3 : 2, id == 0 ? 1. : 1.5, id == 0 ? 0.5 : 0.25, tolang, opt == 5 ? 1 : 0, 0, bench, cyl, opt == 5 ? 0.5 : 0., breaks, codir, TEST, &sp);
+          DirParam dp(id == 0 ? 3 : 2, (id == 0 ? 1. : 1.5) * (mag == 2 ? 1e+100 : 1.), id == 0 ? 0.5 : 0.25, tolang, opt == 5 ? 1 : 0, 0, bench, cyl, opt == 5 ? 0.5 : 0., breaks, codir, TEST, &sp);
           vp.addDir(dp);
         }
         if ((opt == 1 || opt == 2) && ndim < 2) return nullptr;
@@ -937,8 +1022,8 @@ inline void register_anam()
       AnamHermite* a = AnamHermite::create(nb, x[3] == 0, 1.);
       if (x[0] == 0)
       {
-        if (x[2]) { delete a; return nullptr; }
-        VectorDouble psi; for (int i = 0; i < nb; i++) psi.push_back(i == 0 ? 2.5 : 1. / (1 << i));
+        static const double PE[6] = {-1.23456789012345e-100, 9.99999999999999e-101, -4.94065645841247e-324, 1.23456789012345e-300, -2. / 3., 0.1 + 0.2};
+        VectorDouble psi; for (int i = 0; i < nb; i++) psi.push_back(i == 0 ? 2.5 : x[2] ? PE[(i - 1) % 6] : 1. / (1 << i));
         a->reset(-2.5, 0.25, 3., 7.5, -4., 0., 5., 12., 1., psi);   // everything set by hand
       }
       else
@@ -1045,15 +1130,16 @@ inline void mesh_probe(AMesh& m, Fp& fp)
 inline void register_mesh()
 {
   Reg<MeshETurbo>("MeshETurbo")
-    .space([](bool th) { Space s; s.axis("ndim", 3).axis("nxset", 2).axis("geom", th ? 3 : 2).axis("rot", 2).axis("polar", 2).axis("mask", 3); return s; })
+    .space([](bool th) { Space s; s.axis("ndim", 3).axis("nxset", 2).axis("geom", 4).axis("rot", 2).axis("polar", 2).axis("mask", 3); return s; })
     .build([](const std::vector<int>& x) -> MeshETurbo* {
       int ndim = x[0] + 1;
       static const int NX[2][3] = {{3, 2, 2}, {2, 4, 3}};
-      static const double DX[3][3] = {{1, 1, 1}, {0.5, 2, 0.25}, {0.1, 1. / 3., 1e3}};
-      static const double X0[3][3] = {{0, 0, 0}, {-1.5, 10, 0.25}, {1e6, -1. / 3., 0.2}};
+      static const double DX[4][3] = {{1, 1, 1}, {0.5, 2, 0.25}, {0.1, 1. / 3., 1e3}, {1.23456789012345e+100, 9.99999999999999e-101, 1.23456789012345e-100}};
+      static const double X0[4][3] = {{0, 0, 0}, {-1.5, 10, 0.25}, {1e6, -1. / 3., 0.2}, {-1.23456789012345e-100, -1.23456789012345e+100, -9.99999999999999e-307}};
       VectorInt nx(ndim); VectorDouble dx(ndim), x0(ndim), ang(ndim, 0.);
       for (int d = 0; d < ndim; d++) { nx[d] = NX[x[1]][d]; dx[d] = DX[x[2]][d]; x0[d] = X0[x[2]][d]; }
       if (x[3] && ndim == 1) return nullptr;
+      if (x[3] && x[2] == 3) return nullptr;   // extreme mesh sizes: unrotated (a rotated coordinate mixes 1e+100 and 1e-100 terms: derived quantity)
       if (x[3]) ang[0] = 30.;
       if (!x[5]) return MeshETurbo::create(nx, dx, x0, ang, x[4] != 0, false);
       // masked: mesh built from a grid with a selection
@@ -1079,11 +1165,11 @@ inline void register_mesh()
     .done();
 
   Reg<MeshEStandard>("MeshEStandard")
-    .space([](bool) { Space s; s.axis("ndim", 3).axis("shape", 2).axis("vset", 2); return s; })
+    .space([](bool) { Space s; s.axis("ndim", 3).axis("shape", 2).axis("vset", 2 + n_extreme_sets()); return s; })
     .build([](const std::vector<int>& x) -> MeshEStandard* {
       int ndim = x[0] + 1, nap = x[1] ? ndim + 2 : ndim + 1, nm = x[1] ? 2 : 1;
       MatrixRectangular ap(nap, ndim);
-      for (int i = 0; i < nap; i++) for (int d = 0; d < ndim; d++) ap.setValue(i, d, (i == d + 1 ? 1. : i == ndim + 1 ? 1. : 0.) * (x[2] ? 1. / 3. : 1.) + (x[2] ? 100. : 0.));
+      for (int i = 0; i < nap; i++) for (int d = 0; d < ndim; d++) ap.setValue(i, d, x[2] >= 2 ? pick_value(vset_of(x[2], 2), i, d) : (i == d + 1 ? 1. : i == ndim + 1 ? 1. : 0.) * (x[2] ? 1. / 3. : 1.) + (x[2] ? 100. : 0.));
       MatrixInt ms(nm, ndim + 1);
       for (int m = 0; m < nm; m++) for (int r = 0; r < ndim + 1; r++) ms.setValue(m, r, m == 0 ? r : r + 1);
       return MeshEStandard::createFromExternal(ap, ms, false); })
@@ -1195,8 +1281,8 @@ inline void register_neigh2()
 inline void register_lines()
 {
   Reg<PolyLine2D>("PolyLine2D")
-    .space([](bool) { Space s; s.axis("shape", 4).axis("shift", 2); return s; })
-    .build([](const std::vector<int>& x) -> PolyLine2D* { VectorDouble px, py; ring(x[0], x[1], px, py); return new PolyLine2D(px, py); })
+    .space([](bool) { Space s; s.axis("shape", 6).axis("shift", 2); return s; })
+    .build([](const std::vector<int>& x) -> PolyLine2D* { VectorDouble px, py; ring(x[0], x[0] >= 4 ? 0 : x[1], px, py); return new PolyLine2D(px, py); })
     .fromNF([](const std::string& p) { return PolyLine2D::createFromNF(p, false); })
     .getters([](const PolyLine2D& p, Fp& fp) { polyline_getters(p, fp, ""); })
     .nontrivial([](const std::vector<int>& x) { return x[0] > 0; })
@@ -1204,8 +1290,8 @@ inline void register_lines()
     .done();
 
   Reg<PolyElem>("PolyElem")
-    .space([](bool) { Space s; s.axis("shape", 4).axis("zlim", 3); return s; })
-    .build([](const std::vector<int>& x) -> PolyElem* { VectorDouble px, py; ring(x[0], 0, px, py); return new PolyElem(px, py, x[1] == 0 ? TEST : -1.5, x[1] == 2 ? 1. / 3. : TEST); })
+    .space([](bool) { Space s; s.axis("shape", 6).axis("zlim", 4); return s; })
+    .build([](const std::vector<int>& x) -> PolyElem* { VectorDouble px, py; ring(x[0], 0, px, py); return new PolyElem(px, py, x[1] == 0 ? TEST : x[1] == 3 ? -1.23456789012345e+100 : -1.5, x[1] == 2 ? 1. / 3. : x[1] == 3 ? -1.23456789012345e-100 : TEST); })
     .fromNF([](const std::string& p) { return PolyElem::createFromNF(p, false); })
     .getters([](const PolyElem& p, Fp& fp) { fp.D("zlimits:zmin", p.getZmin()); fp.D("zlimits:zmax", p.getZmax()); polyline_getters(p, fp, ""); })
     .nontrivial([](const std::vector<int>& x) { return x[1] > 0; })
@@ -1213,10 +1299,10 @@ inline void register_lines()
     .done();
 
   Reg<Faults>("Faults")
-    .space([](bool) { Space s; s.axis("nfaults", 3).axis("shape", 4); return s; })
+    .space([](bool) { Space s; s.axis("nfaults", 3).axis("shape", 6); return s; })
     .build([](const std::vector<int>& x) -> Faults* {
       Faults* f = new Faults();
-      for (int k = 0; k < x[0]; k++) { VectorDouble px, py; ring((x[1] + k) % 4, k, px, py); f->addFault(PolyLine2D(px, py)); }
+      for (int k = 0; k < x[0]; k++) { VectorDouble px, py; ring(x[1] >= 4 ? x[1] : (x[1] + k) % 4, x[1] >= 4 ? 0 : k, px, py); f->addFault(PolyLine2D(px, py)); }
       return f; })
     .fromNF([](const std::string& p) { return Faults::createFromNF(p, false); })
     .getters([](const Faults& f, Fp& fp) { fp.I("count:nfaults", f.getNFaults()); for (int k = 0; k < f.getNFaults(); k++) polyline_getters(f.getFault(k), fp, "fault" + std::to_string(k) + "."); })
@@ -1265,7 +1351,7 @@ inline void register_lines()
 inline void register_db2()
 {
   Reg<DbLine>("DbLine")
-    .space([](bool) { Space s; s.axis("layout", 3).axis("nvar", 2).axis("vset", 3); return s; })
+    .space([](bool) { Space s; s.axis("layout", 3).axis("nvar", 2).axis("vset", 3 + n_extreme_sets()); return s; })
     .build([](const std::vector<int>& x) -> DbLine* {
       VectorInt counts = std::vector<VectorInt>{{3}, {2, 3}, {1, 2, 2}}[x[0]];
       int n = 0; for (int c : counts) n += c;
@@ -1273,7 +1359,7 @@ inline void register_db2()
       VectorDouble tab; VectorString names = {"x1", "x2"}, locs = {"x1", "x2"};
       for (int i = 0; i < n; i++) tab.push_back((double)(i % 3));
       for (int i = 0; i < n; i++) tab.push_back((double)(i / 3) + 0.5);
-      for (int v = 0; v < nvar; v++) { names.push_back("z" + std::to_string(v + 1)); locs.push_back("z" + std::to_string(v + 1)); for (int i = 0; i < n; i++) tab.push_back(pick_value(x[2], i, v)); }
+      for (int v = 0; v < nvar; v++) { names.push_back("z" + std::to_string(v + 1)); locs.push_back("z" + std::to_string(v + 1)); for (int i = 0; i < n; i++) tab.push_back(pick_value(vset_of(x[2], 3), i, v)); }
       return DbLine::createFromSamples(n, ELoadBy::COLUMN, tab, counts, names, locs, true); })
     .fromNF([](const std::string& p) { return DbLine::createFromNF(p, false); })
     .getters([](const DbLine& d, Fp& fp) {
@@ -1296,10 +1382,10 @@ inline void register_db2()
     .done();
 
   Reg<DbGraphO>("DbGraphO")
-    .space([](bool) { Space s; s.axis("graph", 3).axis("vset", 3); return s; })
+    .space([](bool) { Space s; s.axis("graph", 3).axis("vset", 3 + n_extreme_sets()); return s; })
     .build([](const std::vector<int>& x) -> DbGraphO* {
       int n = 4;
-      VectorDouble tab; for (int i = 0; i < n; i++) tab.push_back((double)i); for (int i = 0; i < n; i++) tab.push_back((double)(i % 2)); for (int i = 0; i < n; i++) tab.push_back(pick_value(x[1], i, 0));
+      VectorDouble tab; for (int i = 0; i < n; i++) tab.push_back((double)i); for (int i = 0; i < n; i++) tab.push_back((double)(i % 2)); for (int i = 0; i < n; i++) tab.push_back(pick_value(vset_of(x[1], 3), i, 0));
       NF_Triplet arcs;
       if (x[0] == 0) { arcs.add(0, 1, 1.); arcs.add(1, 2, 1.); arcs.add(2, 3, 1.); }
       if (x[0] == 1) { arcs.add(0, 1, 0.5); arcs.add(0, 2, 0.75); arcs.add(2, 3, 1. / 3.); }
@@ -1319,13 +1405,13 @@ inline void register_db2()
     .done();
 
   Reg<DbMeshTurbo>("DbMeshTurbo")
-    .space([](bool) { Space s; s.axis("ndim", 2).axis("rot", 2).axis("polar", 2).axis("vset", 2); return s; })
+    .space([](bool) { Space s; s.axis("ndim", 2).axis("rot", 2).axis("polar", 2).axis("vset", 2 + n_extreme_sets()); return s; })
     .build([](const std::vector<int>& x) -> DbMeshTurbo* {
       int ndim = x[0] + 1;
       VectorInt nx(ndim, 2); nx[0] = 3; VectorDouble dx(ndim, 0.5), x0(ndim, -1.5), ang(ndim, 0.);
       if (x[1]) { if (ndim == 1) return nullptr; ang[0] = 30.; }
       int n = 1; for (int d = 0; d < ndim; d++) n *= nx[d];
-      VectorDouble tab; for (int i = 0; i < n; i++) tab.push_back(pick_value(x[3], i, 0));
+      VectorDouble tab; for (int i = 0; i < n; i++) tab.push_back(pick_value(vset_of(x[3], 2), i, 0));
       return DbMeshTurbo::create(nx, dx, x0, ang, ELoadBy::SAMPLE, tab, {"z1"}, {"z1"}, x[2] != 0, false); })
     .fromNF([](const std::string& p) { return DbMeshTurbo::createFromNF(p, false); })
     .getters([](const DbMeshTurbo& d, Fp& fp) {
@@ -1339,12 +1425,12 @@ inline void register_db2()
     .done();
 
   Reg<DbMeshStandard>("DbMeshStandard")
-    .space([](bool) { Space s; s.axis("ndim", 2).axis("shape", 2).axis("vset", 2); return s; })
+    .space([](bool) { Space s; s.axis("ndim", 2).axis("shape", 2).axis("vset", 2 + n_extreme_sets()); return s; })
     .build([](const std::vector<int>& x) -> DbMeshStandard* {
       int ndim = x[0] + 1, nap = x[1] ? ndim + 2 : ndim + 1, nm = x[1] ? 2 : 1;
       VectorDouble ap; for (int i = 0; i < nap; i++) for (int d = 0; d < ndim; d++) ap.push_back(i == d + 1 ? 1. : i == ndim + 1 ? 1.5 : 0.);
       VectorInt ms; for (int m = 0; m < nm; m++) for (int r = 0; r < ndim + 1; r++) ms.push_back(m == 0 ? r : r + 1);
-      VectorDouble tab; for (int i = 0; i < nap; i++) tab.push_back(pick_value(x[2], i, 0));
+      VectorDouble tab; for (int i = 0; i < nap; i++) tab.push_back(pick_value(vset_of(x[2], 2), i, 0));
       return DbMeshStandard::create(ndim, ndim + 1, ap, ms, ELoadBy::SAMPLE, tab, {"z1"}, {"z1"}, false); })
     .fromNF([](const std::string& p) { return DbMeshStandard::createFromNF(p, false); })
     .getters([](const DbMeshStandard& d, Fp& fp) {
